@@ -29,6 +29,8 @@ fn limbs32(v: u32) -> Vec<u32> {
 #[derive(Clone)]
 enum Src {
     Rand(u64),
+    /// PRNG seeded with .0 and positioned at 32-bit word .1 of its stream (directed at extreme words)
+    RandAt(u64, u64),
     Arb(Vec<u8>),
 }
 
@@ -36,6 +38,7 @@ impl Src {
     fn json(&self) -> (i64, Value) {
         match self {
             Src::Rand(s) => (1, json!(limbs64(*s))),
+            Src::RandAt(s, p) => (1, json!([limbs64(*s), limbs64(*p)].concat())),
             Src::Arb(b) => (2, json!(b)),
         }
     }
@@ -48,6 +51,12 @@ fn with_src<T>(src: &Src, f: impl FnOnce(&mut GenerationSource) -> T) -> Result<
     let r = catch_unwind(AssertUnwindSafe(|| match src {
         Src::Rand(s) => {
             let mut rng = ChaCha8Rng::seed_from_u64(*s);
+            let mut g = GenerationSource::Rand(&mut rng);
+            (f(&mut g), 0usize)
+        }
+        Src::RandAt(s, p) => {
+            let mut rng = ChaCha8Rng::seed_from_u64(*s);
+            rng.set_word_pos(*p as u128);
             let mut g = GenerationSource::Rand(&mut rng);
             (f(&mut g), 0usize)
         }
@@ -99,7 +108,35 @@ fn sources(spec: &Spec, rng: &mut ChaCha8Rng, want_two: usize) -> Vec<Src> {
         v.push(Src::Arb(b));
     }
     for _ in 0..spec.rand_states { v.push(Src::Rand(rng.random())); }
+    v.extend(extreme_prng_states());
     v
+}
+
+/// PRNG states whose NEXT 32-bit words are extreme: exactly 0xffff_ffff (streams known to contain one
+/// early), and the first words >= 0xffff_ff00 / <= 0xff of one stream.  A draw that reduces a word to
+/// an index or a range meets its boundary here; also positioned one and two words earlier, so that the
+/// extreme word is the second or third word a multi-word draw consumes.
+fn extreme_prng_states() -> Vec<Src> {
+    use rand::RngCore;
+    let mut out = Vec::new();
+    let at = |seed: u64, pos: u64, out: &mut Vec<Src>| {
+        for back in 0..3u64 { if pos >= back { out.push(Src::RandAt(seed, pos - back)); } }
+    };
+    for seed in [3488453u64, 696709, 3250177, 1006852] {
+        let mut r = ChaCha8Rng::seed_from_u64(seed);
+        for pos in 0..600u64 {
+            if r.next_u32() == u32::MAX { at(seed, pos, &mut out); break; }
+        }
+    }
+    let mut r = ChaCha8Rng::seed_from_u64(1);
+    let (mut hi, mut lo) = (0, 0);
+    for pos in 0..200_000_000u64 {
+        let w = r.next_u32();
+        if w >= 0xffff_ff00 && hi < 3 { hi += 1; at(1, pos, &mut out); }
+        if w <= 0xff && lo < 3 { lo += 1; at(1, pos, &mut out); }
+        if hi >= 3 && lo >= 3 { break; }
+    }
+    out
 }
 
 struct Out {
@@ -205,6 +242,7 @@ fn mutator_calls(spec: &Spec, rng: &mut ChaCha8Rng, out: &mut Out) {
         srcs.push(Src::Arb(b));
     }
     for _ in 0..spec.rand_states.min(10) { srcs.push(Src::Rand(rng.random())); }
+    srcs.extend(extreme_prng_states().into_iter().step_by(3));
     let rates: [(i64, f64); 3] = [(0, 0.0), (2, 1.0), (1, 0.5)];
 
     let mut i32s: Vec<i32> = vec![i32::MIN, i32::MIN + 1, -2, -1, 0, 1, 2, i32::MAX - 1, i32::MAX, 0x7fff, 0x8000, 0xffff, 0x10000, -0x8000];
